@@ -10,7 +10,7 @@
 (*            (times * 8), rows (states+controls, ints), jn, jd (J as a    *)
 (*            fraction), tn, td, diffs: <<<<[n, d]>>>>]                    *)
 (***************************************************************************)
-EXTENDS F64, TraceIO, Sequences, FiniteSets
+EXTENDS F64, Dyadic, TraceIO, Sequences, FiniteSets
 VARIABLE tid
 
 F1e10n == FNeg(F1e10)
@@ -66,7 +66,26 @@ Merit(c) ==
              c.diffs[i][k].n * (c.times8[i + 1] - c.times8[i]) # c.diffs[i][k].d * 8 * (c.rows[i + 1][k] - c.rows[i][k])
         THEN {"finite-difference"} ELSE {})
 
-Verdict(c) == IF c.kind = "run" THEN Run(c) ELSE Merit(c)
+\* ---- the figure of merit of a REAL simulation output, recomputed in exact arithmetic.
+\* All doubles are given as naturals scaled by 2^K (absolute values; only squares are used):
+\*   w[i]   = t[i+1] - t[i]            (i = 1..m-1)
+\*   st[i]  = the used state entries of row i,  ct[i] = the control entries of row i
+\*   g = gamma, T = t[m], j = the value the code returned
+\* J * T must equal  sum_i w[i] * (g * sum ct[i]^2 + [i >= 2] sum st[i]^2)  up to float rounding.
+RECURSIVE BSumSq(_, _)
+BSumSq(v, k) == IF k > Len(v) THEN <<>> ELSE BAdd(BMul(v[k], v[k]), BSumSq(v, k + 1))
+RECURSIVE JNum(_, _)
+JNum(c, i) == IF i > Len(c.w) THEN <<>>
+              ELSE BAdd(BMul(c.w[i], BAdd(BMul(c.g, BSumSq(c.ct[i], 1)),
+                                          IF i >= 2 THEN BMul(c.one, BSumSq(c.st[i], 1)) ELSE <<>>)),
+                        JNum(c, i + 1))
+JReal(c) ==
+  LET num == JNum(c, 1)                                  \* scale 2^(4K)
+      lhs == BMul(BMul(c.j, c.T), BMul(c.one, c.one))   \* scale 2^(4K)
+      diff == IF BLe(num, lhs) THEN BSub(lhs, num) ELSE BSub(num, lhs)
+  IN IF BLe(BMul(diff, P40), BAdd(num, BMul(c.one, BMul(c.one, BMul(c.one, c.one)))))   \* rel 2^-40 + abs 2^-40
+     THEN {} ELSE {"figure-of-merit-of-simulation-not-documented-sum"}
+Verdict(c) == IF c.kind = "run" THEN Run(c) ELSE IF c.kind = "merit" THEN Merit(c) ELSE JReal(c)
 Init == tid = 0
 Next == /\ tid < NCases /\ tid' = tid + 1
         /\ PrintT(<<"V", Cases[tid'].id, Verdict(Cases[tid'])>>)
